@@ -1,1 +1,964 @@
-//! C18 harnesses (Engine K)
+//! C18 — positions are opened, closed, re-ranged, locked and bundled only consistently (Engine K).
+//!
+//! Function level (quick tier): tick-range validation (Anchor + Pinocchio), `open_position`,
+//! `reset_position_range` (both runtimes, differential), `is_position_empty`, one-sided tick
+//! resolution (tick math = contract stubs T1/T2), `PositionBundle` bitmap, lock predicates.
+//! Handler level (thorough tier): close / lock / reset handlers up to the first CPI, Pinocchio
+//! decrease/increase prefixes, CPI log of `mint_position_token_and_remove_authority`.
+use crate::common::*;
+use anchor_lang::prelude::{Account, AccountInfo, Pubkey};
+use anchor_lang::Discriminator;
+use ::whirlpool::errors::ErrorCode;
+use ::whirlpool::pinocchio::state::whirlpool::{MemoryMappedPosition, MemoryMappedWhirlpool};
+use ::whirlpool::state::{
+    Position, PositionBundle, PositionRewardInfo, Whirlpool, MAX_TICK_INDEX, MIN_TICK_INDEX,
+};
+
+const WP_LEN: usize = 653;
+const POS_LEN: usize = 216;
+/// byte offset of `tick_spacing` in a Whirlpool account (disc 8 + config 32 + bump 1)
+const WP_TICK_SPACING: usize = 41;
+const FULL_RANGE_ONLY: u16 = 32768;
+
+// ------------------------------------------------------------------------------------------------
+// specification side (written independently of the code under test)
+
+/// "usable tick": inside the protocol bounds and a multiple of the spacing
+fn spec_usable(t: i32, s: u16) -> bool {
+    let s = s as i32;
+    t >= MIN_TICK_INDEX && t <= MAX_TICK_INDEX && (t / s) * s == t
+}
+/// the full range for a spacing = from the smallest usable tick to the largest usable tick
+fn spec_is_full_range(lo: i32, hi: i32, s: u16) -> bool {
+    spec_usable(lo, s)
+        && spec_usable(hi, s)
+        && lo - (s as i32) < MIN_TICK_INDEX
+        && hi + (s as i32) > MAX_TICK_INDEX
+}
+/// validity of a range given the usability of its two bounds
+fn spec_valid_from(u_lo: bool, u_hi: bool, lo: i32, hi: i32, s: u16) -> bool {
+    u_lo && u_hi && lo < hi && (s < FULL_RANGE_ONLY || spec_is_full_range(lo, hi, s))
+}
+fn spec_valid_range(lo: i32, hi: i32, s: u16) -> bool {
+    spec_valid_from(spec_usable(lo, s), spec_usable(hi, s), lo, hi, s)
+}
+/// error code demanded for an invalid range (usable/ordering is reported before full-range-only)
+fn spec_error_from(u_lo: bool, u_hi: bool, lo: i32, hi: i32) -> u32 {
+    if !(u_lo && u_hi && lo < hi) {
+        ecode(ErrorCode::InvalidTickIndex)
+    } else {
+        ecode(ErrorCode::FullRangeOnlyPool)
+    }
+}
+fn spec_range_error(lo: i32, hi: i32, s: u16) -> u32 {
+    spec_error_from(spec_usable(lo, s), spec_usable(hi, s), lo, hi)
+}
+
+/// Uninterpreted replacement of `Tick::check_is_usable_tick(t, s)` for the harness that quantifies over
+/// every u16 spacing: two bit-blasted 32-bit remainders by the same symbolic divisor cannot be related
+/// by the SAT back end (measured: > 600 s even for spacing <= 255). Exact on the bounds part, an arbitrary
+/// but fixed answer per (t, s) otherwise; the definition itself (in bounds ∧ t % s == 0) is
+/// `c18_usable_tick_definition`, and the real function runs unstubbed in the spacing-set harnesses.
+mod usable_memo {
+    use super::{MAX_TICK_INDEX, MIN_TICK_INDEX};
+    const N: usize = 4;
+    static mut K: [(i32, u16); N] = [(0, 0); N];
+    static mut V: [bool; N] = [false; N];
+    static mut CNT: usize = 0;
+    pub fn stub_check_is_usable_tick(t: i32, s: u16) -> bool {
+        if t < MIN_TICK_INDEX || t > MAX_TICK_INDEX {
+            return false;
+        }
+        unsafe {
+            let mut i = 0;
+            while i < CNT {
+                if K[i] == (t, s) {
+                    return V[i];
+                }
+                i += 1;
+            }
+            assert!(CNT < N, "memo table bound (check_is_usable_tick)");
+            let v: bool = kani::any();
+            K[CNT] = (t, s);
+            V[CNT] = v;
+            CNT += 1;
+            v
+        }
+    }
+}
+
+// ------------------------------------------------------------------------------------------------
+// builders
+
+/// Whirlpool account bytes: discriminator + the given tick spacing, everything else zero (no other
+/// field is read by the functions checked at this level)
+fn wp_bytes(tick_spacing: u16) -> [u8; WP_LEN] {
+    let mut d = [0u8; WP_LEN];
+    d[..8].copy_from_slice(Whirlpool::DISCRIMINATOR);
+    d[WP_TICK_SPACING..WP_TICK_SPACING + 2].copy_from_slice(&tick_spacing.to_le_bytes());
+    d
+}
+fn mwp(b: &[u8; WP_LEN]) -> &MemoryMappedWhirlpool {
+    unsafe { &*(b.as_ptr() as *const MemoryMappedWhirlpool) }
+}
+fn mpos(b: &mut [u8; POS_LEN]) -> &mut MemoryMappedPosition {
+    unsafe { &mut *(b.as_mut_ptr() as *mut MemoryMappedPosition) }
+}
+
+#[derive(Clone, Copy)]
+struct PosFields {
+    whirlpool: [u8; 32],
+    mint: [u8; 32],
+    liquidity: u128,
+    lo: i32,
+    hi: i32,
+    cp_a: u128,
+    owed_a: u64,
+    cp_b: u128,
+    owed_b: u64,
+    r_cp: [u128; 3],
+    r_owed: [u64; 3],
+}
+fn any_pos_fields() -> PosFields {
+    PosFields {
+        whirlpool: kani::any(),
+        mint: kani::any(),
+        liquidity: kani::any(),
+        lo: kani::any(),
+        hi: kani::any(),
+        cp_a: kani::any(),
+        owed_a: kani::any(),
+        cp_b: kani::any(),
+        owed_b: kani::any(),
+        r_cp: kani::any(),
+        r_owed: kani::any(),
+    }
+}
+impl PosFields {
+    fn empty(&self) -> bool {
+        self.liquidity == 0
+            && self.owed_a == 0
+            && self.owed_b == 0
+            && self.r_owed[0] == 0
+            && self.r_owed[1] == 0
+            && self.r_owed[2] == 0
+    }
+    fn anchor(&self) -> Position {
+        Position {
+            whirlpool: Pubkey::new_from_array(self.whirlpool),
+            position_mint: Pubkey::new_from_array(self.mint),
+            liquidity: self.liquidity,
+            tick_lower_index: self.lo,
+            tick_upper_index: self.hi,
+            fee_growth_checkpoint_a: self.cp_a,
+            fee_owed_a: self.owed_a,
+            fee_growth_checkpoint_b: self.cp_b,
+            fee_owed_b: self.owed_b,
+            reward_infos: [
+                PositionRewardInfo { growth_inside_checkpoint: self.r_cp[0], amount_owed: self.r_owed[0] },
+                PositionRewardInfo { growth_inside_checkpoint: self.r_cp[1], amount_owed: self.r_owed[1] },
+                PositionRewardInfo { growth_inside_checkpoint: self.r_cp[2], amount_owed: self.r_owed[2] },
+            ],
+        }
+    }
+    /// account bytes in the layout of `state/position.rs` (borsh = packed little endian)
+    fn bytes(&self) -> [u8; POS_LEN] {
+        let mut d = [0u8; POS_LEN];
+        d[..8].copy_from_slice(Position::DISCRIMINATOR);
+        d[8..40].copy_from_slice(&self.whirlpool);
+        d[40..72].copy_from_slice(&self.mint);
+        d[72..88].copy_from_slice(&self.liquidity.to_le_bytes());
+        d[88..92].copy_from_slice(&self.lo.to_le_bytes());
+        d[92..96].copy_from_slice(&self.hi.to_le_bytes());
+        d[96..112].copy_from_slice(&self.cp_a.to_le_bytes());
+        d[112..120].copy_from_slice(&self.owed_a.to_le_bytes());
+        d[120..136].copy_from_slice(&self.cp_b.to_le_bytes());
+        d[136..144].copy_from_slice(&self.owed_b.to_le_bytes());
+        let mut i = 0;
+        while i < 3 {
+            let o = 144 + 24 * i;
+            d[o..o + 16].copy_from_slice(&self.r_cp[i].to_le_bytes());
+            d[o + 16..o + 24].copy_from_slice(&self.r_owed[i].to_le_bytes());
+            i += 1;
+        }
+        d
+    }
+}
+fn rd16(d: &[u8; POS_LEN], o: usize) -> u128 {
+    let mut b = [0u8; 16];
+    let mut i = 0;
+    while i < 16 {
+        b[i] = d[o + i];
+        i += 1;
+    }
+    u128::from_le_bytes(b)
+}
+fn rd8(d: &[u8; POS_LEN], o: usize) -> u64 {
+    let mut b = [0u8; 8];
+    let mut i = 0;
+    while i < 8 {
+        b[i] = d[o + i];
+        i += 1;
+    }
+    u64::from_le_bytes(b)
+}
+/// byte-exact comparison of account bytes with the expected field values (no memcmp loop)
+fn bytes_are(d: &[u8; POS_LEN], f: &PosFields) -> bool {
+    let mut ok = rd8(d, 0) == u64::from_le_bytes(Position::DISCRIMINATOR.try_into().unwrap());
+    ok = ok && rd16(d, 8) == rd16_32(&f.whirlpool, 0) && rd16(d, 24) == rd16_32(&f.whirlpool, 16);
+    ok = ok && rd16(d, 40) == rd16_32(&f.mint, 0) && rd16(d, 56) == rd16_32(&f.mint, 16);
+    ok = ok && rd16(d, 72) == f.liquidity;
+    ok = ok && (rd8(d, 88) as u32) as i32 == f.lo && ((rd8(d, 88) >> 32) as u32) as i32 == f.hi;
+    ok = ok && rd16(d, 96) == f.cp_a && rd8(d, 112) == f.owed_a;
+    ok = ok && rd16(d, 120) == f.cp_b && rd8(d, 136) == f.owed_b;
+    let mut i = 0;
+    while i < 3 {
+        let o = 144 + 24 * i;
+        ok = ok && rd16(d, o) == f.r_cp[i] && rd8(d, o + 16) == f.r_owed[i];
+        i += 1;
+    }
+    ok
+}
+fn rd16_32(d: &[u8; 32], o: usize) -> u128 {
+    let mut b = [0u8; 16];
+    let mut i = 0;
+    while i < 16 {
+        b[i] = d[o + i];
+        i += 1;
+    }
+    u128::from_le_bytes(b)
+}
+fn same_as_fields(p: &Position, f: &PosFields) -> bool {
+    p.whirlpool.to_bytes() == f.whirlpool
+        && p.position_mint.to_bytes() == f.mint
+        && p.liquidity == f.liquidity
+        && p.tick_lower_index == f.lo
+        && p.tick_upper_index == f.hi
+        && p.fee_growth_checkpoint_a == f.cp_a
+        && p.fee_owed_a == f.owed_a
+        && p.fee_growth_checkpoint_b == f.cp_b
+        && p.fee_owed_b == f.owed_b
+        && p.reward_infos[0].growth_inside_checkpoint == f.r_cp[0]
+        && p.reward_infos[1].growth_inside_checkpoint == f.r_cp[1]
+        && p.reward_infos[2].growth_inside_checkpoint == f.r_cp[2]
+        && p.reward_infos[0].amount_owed == f.r_owed[0]
+        && p.reward_infos[1].amount_owed == f.r_owed[1]
+        && p.reward_infos[2].amount_owed == f.r_owed[2]
+}
+
+/// Both `validate_tick_range_for_whirlpool` are private: the Anchor one is reached through
+/// `Position::open_position` (which does nothing else before it), the Pinocchio one through
+/// `MemoryMappedPosition::reset_position_range` on an empty position holding a different range.
+fn anchor_validate(wp_data: &mut [u8; WP_LEN], wp_key: &Pubkey, lo: i32, hi: i32) -> (Result<(), u32>, Position) {
+    let program_id = ::whirlpool::ID;
+    let mut lamports = 1u64;
+    let ai = AccountInfo::new(wp_key, false, false, &mut lamports, &mut wp_data[..], &program_id, false, 0);
+    let wp: Account<Whirlpool> = Account::try_from(&ai).unwrap();
+    let mut pos = Position::default();
+    let mint = Pubkey::new_from_array([7u8; 32]);
+    let r = pos.open_position(&wp, mint, lo, hi);
+    let out = match &r {
+        Ok(()) => Ok(()),
+        Err(e) => Err(acode(e)),
+    };
+    core::mem::forget(r);
+    core::mem::forget(wp);
+    (out, pos)
+}
+fn pino_validate(wp_data: &[u8; WP_LEN], old: (i32, i32), lo: i32, hi: i32) -> Result<(), u32> {
+    let mut f = PosFields {
+        whirlpool: [0; 32], mint: [0; 32], liquidity: 0, lo: old.0, hi: old.1, cp_a: 0, owed_a: 0,
+        cp_b: 0, owed_b: 0, r_cp: [0; 3], r_owed: [0; 3],
+    };
+    f.lo = old.0;
+    let mut pb = f.bytes();
+    let r = mpos(&mut pb).reset_position_range(mwp(wp_data), lo, hi, true);
+    let out = match &r {
+        Ok(()) => Ok(()),
+        Err(e) => Err(ucode(e)),
+    };
+    core::mem::forget(r);
+    out
+}
+
+/// spacing drawn from {1, 8, 64, 128, 32896}: smallest, two deployed ones, the largest ordinary one used by
+/// the splash-pool tier boundary, and a full-range-only one
+fn any_spacing_from_set() -> u16 {
+    let which: u8 = kani::any();
+    match which {
+        0 => 1,
+        1 => 8,
+        2 => 64,
+        3 => 128,
+        _ => 32896,
+    }
+}
+
+fn check_validate(s: u16, abstract_usable: bool) {
+    let lo: i32 = kani::any();
+    let hi: i32 = kani::any();
+    let old_lo: i32 = kani::any();
+    let old_hi: i32 = kani::any();
+    let key: [u8; 32] = kani::any();
+    kani::assume(s >= 1); // documented validity predicate: every pool has tick_spacing >= 1
+    kani::assume(old_lo != lo || old_hi != hi);
+    let mut wd = wp_bytes(s);
+    let wp_key = Pubkey::new_from_array(key);
+    let p = pino_validate(&wd, (old_lo, old_hi), lo, hi);
+    let (a, pos) = anchor_validate(&mut wd, &wp_key, lo, hi);
+    let (u_lo, u_hi) = if abstract_usable {
+        (usable_memo::stub_check_is_usable_tick(lo, s), usable_memo::stub_check_is_usable_tick(hi, s))
+    } else {
+        (spec_usable(lo, s), spec_usable(hi, s))
+    };
+    let valid = spec_valid_from(u_lo, u_hi, lo, hi, s);
+    kani::cover!(a.is_ok() && s < FULL_RANGE_ONLY, "ordinary range accepted");
+    kani::cover!(a.is_ok() && s >= FULL_RANGE_ONLY, "full range accepted on a full-range-only pool");
+    kani::cover!(a == Err(ecode(ErrorCode::FullRangeOnlyPool)), "partial range refused on a full-range-only pool");
+    assert!(a.is_ok() == valid, "anchor: Ok <=> valid range");
+    assert!(p.is_ok() == valid, "pinocchio: Ok <=> valid range");
+    assert!(a == p, "both runtimes agree, including the error code");
+    if let Err(c) = a {
+        assert!(c == spec_error_from(u_lo, u_hi, lo, hi));
+    } else {
+        // open_position on the zeroed (init) account: range set, identity set, nothing else
+        assert!(pos.tick_lower_index == lo && pos.tick_upper_index == hi);
+        assert!(pos.whirlpool == wp_key);
+    }
+}
+
+/// validate_tick_range_for_whirlpool (Anchor via open_position, Pinocchio via reset_position_range): Ok <=> usable ∧ lower<upper ∧ (full-range-only ⇒ full range); same error codes. Symbolic lower/upper, spacing ∈ {1, 8, 64, 128, 32896}
+// @verif prop=C18 tier=quick timeout=300
+#[kani::proof]
+#[kani::unwind(34)]
+#[kani::stub(alloc::fmt::format, stub_format)]
+#[kani::stub(<anchor_lang::error::Error as core::convert::From<::whirlpool::errors::ErrorCode>>::from, stub_err_from_code)]
+#[kani::stub(<anchor_lang::error::Error as core::convert::From<anchor_lang::error::ErrorCode>>::from, stub_err_from_anchor_code)]
+#[kani::stub(<::whirlpool::pinocchio::errors::UnifiedError as core::convert::From<::whirlpool::errors::ErrorCode>>::from, stub_unified_from_code)]
+fn c18_validate_tick_range_spacing_set() {
+    let s = any_spacing_from_set();
+    check_validate(s, false);
+}
+
+/// the same for EVERY u16 spacing >= 1, with `Tick::check_is_usable_tick` abstracted to an uninterpreted predicate U(t, s) (false outside the tick bounds): Ok ⇔ U(lower) ∧ U(upper) ∧ lower<upper ∧ (spacing >= 2^15 ⇒ lower/upper are the smallest/largest multiples of the spacing inside the bounds); both runtimes agree incl. error codes
+// @verif prop=C18 tier=quick timeout=300
+#[kani::proof]
+#[kani::unwind(34)]
+#[kani::stub(alloc::fmt::format, stub_format)]
+#[kani::stub(<anchor_lang::error::Error as core::convert::From<::whirlpool::errors::ErrorCode>>::from, stub_err_from_code)]
+#[kani::stub(<anchor_lang::error::Error as core::convert::From<anchor_lang::error::ErrorCode>>::from, stub_err_from_anchor_code)]
+#[kani::stub(<::whirlpool::pinocchio::errors::UnifiedError as core::convert::From<::whirlpool::errors::ErrorCode>>::from, stub_unified_from_code)]
+#[kani::stub(::whirlpool::state::Tick::check_is_usable_tick, usable_memo::stub_check_is_usable_tick)]
+fn c18_validate_tick_range_any_spacing() {
+    let s: u16 = kani::any();
+    check_validate(s, true);
+}
+
+/// definition of U: Tick::check_is_usable_tick(t, s) ⇔ MIN_TICK_INDEX <= t <= MAX_TICK_INDEX ∧ t % s == 0, all i32 t and all u16 s >= 1 (SMT back end: the two remainders are one term)
+// @verif prop=C18 tier=quick timeout=300
+#[kani::proof]
+#[kani::solver(z3)]
+fn c18_usable_tick_definition() {
+    let s: u16 = kani::any();
+    let t: i32 = kani::any();
+    kani::assume(s >= 1);
+    let u = ::whirlpool::state::Tick::check_is_usable_tick(t, s);
+    kani::cover!(u, "usable");
+    assert!(u == (t >= MIN_TICK_INDEX && t <= MAX_TICK_INDEX && t % (s as i32) == 0));
+}
+
+/// Position::is_position_empty <=> liquidity == 0 ∧ fee_owed_a == fee_owed_b == 0 ∧ all three reward amount_owed == 0 (all Position fields symbolic)
+// @verif prop=C18 tier=quick timeout=300
+#[kani::proof]
+#[kani::unwind(5)]
+fn c18_is_position_empty() {
+    let f = any_pos_fields();
+    let p = f.anchor();
+    let e = Position::is_position_empty(&p);
+    kani::cover!(e, "empty");
+    kani::cover!(!e && f.liquidity == 0 && f.owed_a == 0 && f.owed_b == 0, "rewards alone make it non-empty");
+    assert!(e == f.empty());
+}
+
+/// reset_position_range, Anchor and Pinocchio on the same position bytes: Ok ⇒ (was empty ∧ new range ≠ old ∧ new range valid) and afterwards range = new, all five growth checkpoints 0, liquidity/owed/identity untouched; Ok ⇐ those three; refusals carry the documented codes; both runtimes agree on outcome and resulting state. Symbolic position and range; spacing ∈ {1, 8, 64, 128, 32896} (range validation for every spacing is c18_validate_tick_range_any_spacing).
+// @verif prop=C18 tier=quick timeout=300
+#[kani::proof]
+#[kani::unwind(34)]
+#[kani::stub(alloc::fmt::format, stub_format)]
+#[kani::stub(<anchor_lang::error::Error as core::convert::From<::whirlpool::errors::ErrorCode>>::from, stub_err_from_code)]
+#[kani::stub(<anchor_lang::error::Error as core::convert::From<anchor_lang::error::ErrorCode>>::from, stub_err_from_anchor_code)]
+#[kani::stub(<::whirlpool::pinocchio::errors::UnifiedError as core::convert::From<::whirlpool::errors::ErrorCode>>::from, stub_unified_from_code)]
+fn c18_reset_position_range() {
+    let f = any_pos_fields();
+    let s = any_spacing_from_set();
+    let lo: i32 = kani::any();
+    let hi: i32 = kani::any();
+    let key: [u8; 32] = kani::any();
+    kani::assume(s >= 1); // documented validity predicate
+    let mut wd = wp_bytes(s);
+    let wp_key = Pubkey::new_from_array(key);
+
+    // Pinocchio (keep_owed = false is the Anchor-equivalent mode)
+    let mut pb = f.bytes();
+    let pr = mpos(&mut pb).reset_position_range(mwp(&wd), lo, hi, false);
+    let p = match &pr { Ok(()) => Ok(()), Err(e) => Err(ucode(e)) };
+    core::mem::forget(pr);
+
+    // Anchor
+    let program_id = ::whirlpool::ID;
+    let mut lamports = 1u64;
+    let ai = AccountInfo::new(&wp_key, false, false, &mut lamports, &mut wd[..], &program_id, false, 0);
+    let wp: Account<Whirlpool> = Account::try_from(&ai).unwrap();
+    let mut pos = f.anchor();
+    let ar = pos.reset_position_range(&wp, lo, hi);
+    let a = match &ar { Ok(()) => Ok(()), Err(e) => Err(acode(e)) };
+    core::mem::forget(ar);
+    core::mem::forget(wp);
+
+    let same = lo == f.lo && hi == f.hi;
+    let valid = spec_valid_range(lo, hi, s);
+    kani::cover!(a.is_ok(), "reset accepted");
+    kani::cover!(a == Err(ecode(ErrorCode::SameTickRangeNotAllowed)), "same range refused");
+    kani::cover!(a == Err(ecode(ErrorCode::ClosePositionNotEmpty)) && f.liquidity == 0, "owed amounts alone refuse");
+    assert!(a == p, "both runtimes agree, including the error code");
+    assert!(a.is_ok() == (f.empty() && !same && valid));
+    let mut expect = f;
+    if a.is_ok() {
+        expect.lo = lo;
+        expect.hi = hi;
+        expect.cp_a = 0;
+        expect.cp_b = 0;
+        expect.r_cp = [0; 3];
+    } else {
+        let c = a.unwrap_err();
+        if !f.empty() {
+            assert!(c == ecode(ErrorCode::ClosePositionNotEmpty));
+        } else if same {
+            assert!(c == ecode(ErrorCode::SameTickRangeNotAllowed));
+        } else {
+            assert!(c == spec_range_error(lo, hi, s));
+        }
+    }
+    assert!(same_as_fields(&pos, &expect), "anchor post-state");
+    assert!(bytes_are(&pb, &expect), "pinocchio post-state");
+}
+
+/// Pinocchio reset_position_range with keep_owed = true (reposition): Ok ⇒ liquidity == 0 ∧ different ∧ valid range; checkpoints reset; owed amounts kept. Symbolic position and range; spacing ∈ {1, 8, 64, 128, 32896}.
+// @verif prop=C18 tier=quick timeout=300
+#[kani::proof]
+#[kani::unwind(34)]
+#[kani::stub(alloc::fmt::format, stub_format)]
+#[kani::stub(<::whirlpool::pinocchio::errors::UnifiedError as core::convert::From<::whirlpool::errors::ErrorCode>>::from, stub_unified_from_code)]
+fn c18_pino_reset_keep_owed() {
+    let f = any_pos_fields();
+    let s = any_spacing_from_set();
+    let lo: i32 = kani::any();
+    let hi: i32 = kani::any();
+    kani::assume(s >= 1);
+    let wd = wp_bytes(s);
+    let mut pb = f.bytes();
+    let pr = mpos(&mut pb).reset_position_range(mwp(&wd), lo, hi, true);
+    let ok = pr.is_ok();
+    core::mem::forget(pr);
+    kani::cover!(ok && f.owed_a != 0, "accepted while fees are owed");
+    let mut expect = f;
+    if ok {
+        assert!(f.liquidity == 0);
+        assert!(!(lo == f.lo && hi == f.hi));
+        assert!(spec_valid_range(lo, hi, s));
+        expect.lo = lo;
+        expect.hi = hi;
+        expect.cp_a = 0;
+        expect.cp_b = 0;
+        expect.r_cp = [0; 3];
+    }
+    assert!(bytes_are(&pb, &expect));
+}
+
+// ------------------------------------------------------------------------------------------------
+// PositionBundle bitmap
+
+fn popcount_diff(a: &[u8; 32], b: &[u8; 32]) -> u32 {
+    let mut n = 0;
+    let mut i = 0;
+    while i < 32 {
+        n += (a[i] ^ b[i]).count_ones();
+        i += 1;
+    }
+    n
+}
+fn bit(bm: &[u8; 32], i: u16) -> bool {
+    // reference numbering: bundle index i is the i-th bit of the little-endian 256-bit bitmap
+    let mut k = 0u16;
+    let mut j = 0usize;
+    while j < 32 {
+        let mut b = 0u8;
+        while b < 8 {
+            if k == i {
+                return (bm[j] >> b) & 1 == 1;
+            }
+            k += 1;
+            b += 1;
+        }
+        j += 1;
+    }
+    false
+}
+
+/// open_bundled_position(i) / close_bundled_position(i) on a symbolic 32-byte bitmap and symbolic u16 index: Ok ⇔ i < 256 ∧ bit i was clear (open) / set (close); Ok flips exactly bit i; Err leaves the bitmap untouched and carries the documented code
+// @verif prop=C18 tier=quick timeout=300
+#[kani::proof]
+#[kani::unwind(34)]
+#[kani::stub(alloc::fmt::format, stub_format)]
+#[kani::stub(<anchor_lang::error::Error as core::convert::From<::whirlpool::errors::ErrorCode>>::from, stub_err_from_code)]
+fn c18_bundle_bitmap_flip() {
+    let bm: [u8; 32] = kani::any();
+    let mint: [u8; 32] = kani::any();
+    let i: u16 = kani::any();
+    let open: bool = kani::any();
+    let mut b = PositionBundle { position_bundle_mint: Pubkey::new_from_array(mint), position_bitmap: bm };
+    let r = if open { b.open_bundled_position(i) } else { b.close_bundled_position(i) };
+    let out = match &r { Ok(()) => Ok(()), Err(e) => Err(acode(e)) };
+    core::mem::forget(r);
+    kani::cover!(out.is_ok() && open, "open ok");
+    kani::cover!(out.is_ok() && !open, "close ok");
+    kani::cover!(out == Err(ecode(ErrorCode::BundledPositionAlreadyOpened)), "double open");
+    kani::cover!(out == Err(ecode(ErrorCode::BundledPositionAlreadyClosed)), "double close");
+    assert!(b.position_bundle_mint.to_bytes() == mint);
+    if i >= 256 {
+        assert!(out == Err(ecode(ErrorCode::InvalidBundleIndex)));
+        assert!(b.position_bitmap == bm);
+        return;
+    }
+    let was = bit(&bm, i);
+    if open == was {
+        let code = if open { ErrorCode::BundledPositionAlreadyOpened } else { ErrorCode::BundledPositionAlreadyClosed };
+        assert!(out == Err(ecode(code)));
+        assert!(b.position_bitmap == bm);
+    } else {
+        assert!(out.is_ok());
+        assert!(bit(&b.position_bitmap, i) == open, "bit i now reflects the operation");
+        assert!(popcount_diff(&b.position_bitmap, &bm) == 1, "exactly one bit changed");
+    }
+}
+
+/// PositionBundle::is_deletable ⇔ all 256 bits are zero (symbolic bitmap)
+// @verif prop=C18 tier=quick timeout=300
+#[kani::proof]
+#[kani::unwind(34)]
+fn c18_bundle_is_deletable() {
+    let bm: [u8; 32] = kani::any();
+    let b = PositionBundle { position_bundle_mint: Pubkey::default(), position_bitmap: bm };
+    let d = b.is_deletable();
+    let j: u16 = kani::any();
+    kani::assume(j < 256);
+    kani::cover!(d, "deletable");
+    kani::cover!(!d, "not deletable");
+    // ⇒ : no open position whatever the index; ⇐ : if not deletable some byte is non-zero
+    if d {
+        assert!(!bit(&bm, j));
+    } else {
+        assert!(bm != [0u8; 32]);
+    }
+}
+
+/// vacuity twin: must FAIL (an accepted reset exists)
+// @verif prop=C18 tier=quick timeout=300 twin
+#[kani::proof]
+#[kani::unwind(34)]
+#[kani::stub(alloc::fmt::format, stub_format)]
+#[kani::stub(<::whirlpool::pinocchio::errors::UnifiedError as core::convert::From<::whirlpool::errors::ErrorCode>>::from, stub_unified_from_code)]
+fn c18_twin_must_fail() {
+    let f = any_pos_fields();
+    let s = any_spacing_from_set();
+    let lo: i32 = kani::any();
+    let hi: i32 = kani::any();
+    kani::assume(s >= 1);
+    let wd = wp_bytes(s);
+    let mut pb = f.bytes();
+    let pr = mpos(&mut pb).reset_position_range(mwp(&wd), lo, hi, false);
+    let ok = pr.is_ok();
+    core::mem::forget(pr);
+    assert!(!ok, "twin: reachable Ok must be reported");
+}
+
+// ------------------------------------------------------------------------------------------------
+// one-sided positions: a sentinel bound is derived from the current price
+
+fn check_resolve(lo: i32, hi: i32, s: u16, price: u128) {
+    use crate::common::memo::price_of;
+    let r = ::whirlpool::util::resolve_one_sided_position_ticks(lo, hi, s, price);
+    let out = match &r {
+        Ok(v) => Ok(*v),
+        Err(e) => Err(acode(e)),
+    };
+    core::mem::forget(r);
+    let lo_s = lo == i32::MIN;
+    let hi_s = hi == i32::MAX;
+    let si = s as i32;
+    kani::cover!(out.is_ok() && lo_s && s < FULL_RANGE_ONLY, "lower bound derived");
+    kani::cover!(out.is_ok() && hi_s && s < FULL_RANGE_ONLY, "upper bound derived");
+    kani::cover!(out.is_err() && lo_s && !hi_s, "no usable tick above the price");
+    match out {
+        Ok((l, u)) => {
+            if s >= FULL_RANGE_ONLY || (!lo_s && !hi_s) {
+                // nothing is derived (on full-range-only pools the sentinel is then refused by range validation)
+                assert!(l == lo && u == hi);
+            } else {
+                assert!(!(lo_s && hi_s));
+                if lo_s {
+                    assert!(u == hi, "the given bound is kept");
+                    assert!(spec_usable(l, s), "derived lower bound is a usable tick");
+                    assert!(price_of(l) >= price, "position entirely above the current price");
+                    if l - si >= MIN_TICK_INDEX {
+                        assert!(price_of(l - si) < price, "nearest: the next usable tick below is under the price");
+                    }
+                } else {
+                    assert!(l == lo, "the given bound is kept");
+                    assert!(spec_usable(u, s), "derived upper bound is a usable tick");
+                    assert!(price_of(u) <= price, "position entirely below the current price");
+                    if u + si <= MAX_TICK_INDEX {
+                        assert!(price_of(u + si) > price, "nearest: the next usable tick above is over the price");
+                    }
+                }
+            }
+        }
+        Err(c) => {
+            assert!(c == ecode(ErrorCode::InvalidTickIndex));
+            assert!(s < FULL_RANGE_ONLY && (lo_s || hi_s));
+            if lo_s && hi_s {
+                // both bounds left open: refused
+            } else if lo_s {
+                // refused only if no usable tick at or above the price exists
+                assert!(price_of(MAX_TICK_INDEX / si * si) < price);
+            } else {
+                assert!(price_of(MIN_TICK_INDEX / si * si) > price);
+            }
+        }
+    }
+}
+
+/// resolve_one_sided_position_ticks with tick math replaced by the monotone price contract (T1/T2): a sentinel bound becomes a usable tick with the whole position on one side of the current price and no usable tick closer to it; the other bound is kept; Err only for two sentinels or when no such tick exists. Symbolic bounds and sqrt price; spacing ∈ {1, 8, 64, 128, 32896}
+// @verif prop=C18 tier=quick timeout=300 contract
+#[kani::proof]
+#[kani::unwind(10)]
+#[kani::stub(alloc::fmt::format, stub_format)]
+#[kani::stub(<anchor_lang::error::Error as core::convert::From<::whirlpool::errors::ErrorCode>>::from, stub_err_from_code)]
+#[kani::stub(::whirlpool::math::tick_math::sqrt_price_from_tick_index, crate::common::memo::stub_sqrt_price_from_tick_index)]
+#[kani::stub(::whirlpool::math::tick_math::tick_index_from_sqrt_price, crate::common::memo::stub_tick_index_from_sqrt_price)]
+fn c18_resolve_one_sided_ticks() {
+    let which: u8 = kani::any();
+    let lo: i32 = kani::any();
+    let hi: i32 = kani::any();
+    let price: u128 = kani::any();
+    // documented validity predicate: a pool's sqrt_price is inside the price bounds
+    kani::assume(price >= ::whirlpool::math::MIN_SQRT_PRICE_X64 && price <= ::whirlpool::math::MAX_SQRT_PRICE_X64);
+    match which {
+        0 => check_resolve(lo, hi, 1, price),
+        1 => check_resolve(lo, hi, 8, price),
+        2 => check_resolve(lo, hi, 64, price),
+        3 => check_resolve(lo, hi, 128, price),
+        _ => check_resolve(lo, hi, 32896, price),
+    }
+}
+
+// ------------------------------------------------------------------------------------------------
+// CPI recording (position token minting)
+
+/// `solana_program::program::invoke_signed` (which `invoke` forwards to) replaced by a recorder: the callee program is outside
+/// the claim; what is checked is which instructions the whirlpool program asks for, in which order.
+/// Each recorded CPI succeeds or fails according to a flag drawn by the harness up front.
+mod cpi_log {
+    use anchor_lang::prelude::AccountInfo;
+    use anchor_lang::solana_program::entrypoint::ProgramResult;
+    use anchor_lang::solana_program::instruction::Instruction;
+    use anchor_lang::solana_program::program_error::ProgramError;
+    pub const MAXLOG: usize = 4;
+    #[derive(Clone, Copy)]
+    pub struct Rec {
+        pub program: [u8; 32],
+        pub len: usize,
+        pub d0: u8,
+        pub d1: u8,
+        pub d2: u8,
+        pub amount: u64,
+        pub n_accounts: usize,
+        pub acc0: [u8; 32],
+        pub acc1: [u8; 32],
+        pub n_signer_sets: usize,
+    }
+    const EMPTY: Rec = Rec { program: [0; 32], len: 0, d0: 0, d1: 0, d2: 0, amount: 0, n_accounts: 0, acc0: [0; 32], acc1: [0; 32], n_signer_sets: 0 };
+    pub static mut LOG: [Rec; MAXLOG] = [EMPTY; MAXLOG];
+    pub static mut N: usize = 0;
+    pub static mut FAIL: [bool; MAXLOG] = [false; MAXLOG];
+
+    pub fn stub_invoke_signed(ix: &Instruction, _infos: &[AccountInfo], seeds: &[&[&[u8]]]) -> ProgramResult {
+        unsafe {
+            assert!(N < MAXLOG, "CPI log bound");
+            let mut r = EMPTY;
+            r.program = ix.program_id.to_bytes();
+            r.len = ix.data.len();
+            if r.len > 0 { r.d0 = ix.data[0]; }
+            if r.len > 1 { r.d1 = ix.data[1]; }
+            if r.len > 2 { r.d2 = ix.data[2]; }
+            if r.len >= 9 {
+                let mut b = [0u8; 8];
+                let mut i = 0;
+                while i < 8 {
+                    b[i] = ix.data[1 + i];
+                    i += 1;
+                }
+                r.amount = u64::from_le_bytes(b);
+            }
+            r.n_accounts = ix.accounts.len();
+            if r.n_accounts > 0 { r.acc0 = ix.accounts[0].pubkey.to_bytes(); }
+            if r.n_accounts > 1 { r.acc1 = ix.accounts[1].pubkey.to_bytes(); }
+            r.n_signer_sets = seeds.len();
+            LOG[N] = r;
+            let fail = FAIL[N];
+            N += 1;
+            if fail { Err(ProgramError::Custom(0xdead)) } else { Ok(()) }
+        }
+    }
+    pub fn stub_invoke(ix: &Instruction, infos: &[AccountInfo]) -> ProgramResult {
+        stub_invoke_signed(ix, infos, &[])
+    }
+}
+
+const TOKEN_IX_SET_AUTHORITY: u8 = 6;
+const TOKEN_IX_MINT_TO: u8 = 7;
+
+fn mint_bytes(authority: Option<[u8; 32]>, supply: u64, decimals: u8) -> [u8; 82] {
+    let mut d = [0u8; 82];
+    if let Some(a) = authority {
+        d[0] = 1;
+        d[4..36].copy_from_slice(&a);
+    }
+    d[36..44].copy_from_slice(&supply.to_le_bytes());
+    d[44] = decimals;
+    d[45] = 1; // initialized
+    d
+}
+fn token_account_bytes(mint: [u8; 32], owner: [u8; 32], amount: u64, state: u8) -> [u8; 165] {
+    let mut d = [0u8; 165];
+    d[0..32].copy_from_slice(&mint);
+    d[32..64].copy_from_slice(&owner);
+    d[64..72].copy_from_slice(&amount.to_le_bytes());
+    d[108] = state;
+    d
+}
+
+/// mint_position_token_and_remove_authority (SPL Token positions) with `invoke_signed` recorded: the CPIs requested are exactly [mint_to(amount = 1) into the position token account, set_authority(MintTokens, None) on the position mint], in that order, both signed by the whirlpool PDA; Ok ⇔ both CPIs succeed; a failed mint_to stops before set_authority. Symbolic whirlpool / mint / token account keys and CPI outcomes.
+// @verif prop=C18 tier=quick timeout=300
+#[kani::proof]
+#[kani::unwind(40)]
+#[kani::stub(alloc::fmt::format, stub_format)]
+#[kani::stub(<anchor_lang::error::Error as core::convert::From<::whirlpool::errors::ErrorCode>>::from, stub_err_from_code)]
+#[kani::stub(<anchor_lang::error::Error as core::convert::From<anchor_lang::error::ErrorCode>>::from, stub_err_from_anchor_code)]
+#[kani::stub(solana_program::program::invoke_signed, cpi_log::stub_invoke_signed)]
+fn c18_mint_position_token_cpi_log() {
+    use anchor_spl::token::{Mint, Token, TokenAccount};
+    let fail0: bool = kani::any();
+    let fail1: bool = kani::any();
+    let wp_key = Pubkey::new_from_array(kani::any());
+    let mint_key = Pubkey::new_from_array(kani::any());
+    let ta_key = Pubkey::new_from_array(kani::any());
+    // not observed by the function (only forwarded as signer seeds / never read): concrete
+    let (cfg, mint_a, mint_b, seed, bump) = ([3u8; 32], [4u8; 32], [5u8; 32], [64u8, 0u8], 254u8);
+    let (supply, decimals, ta_owner) = (0u64, 0u8, [6u8; 32]);
+    unsafe {
+        cpi_log::FAIL[0] = fail0;
+        cpi_log::FAIL[1] = fail1;
+    }
+    let program_id = ::whirlpool::ID;
+    let token_pid = anchor_spl::token::ID;
+    let bpf = Pubkey::new_from_array([2u8; 32]);
+
+    let mut wd = wp_bytes(64);
+    wd[8..40].copy_from_slice(&cfg);
+    wd[40] = bump;
+    wd[43..45].copy_from_slice(&seed);
+    wd[101..133].copy_from_slice(&mint_a);
+    wd[181..213].copy_from_slice(&mint_b);
+    let mut wl = 1u64;
+    let wp_ai = AccountInfo::new(&wp_key, false, true, &mut wl, &mut wd[..], &program_id, false, 0);
+    // the freshly initialised position mint: authority = whirlpool
+    let mut md = mint_bytes(Some(wp_key.to_bytes()), supply, decimals);
+    let mut ml = 1u64;
+    let mint_ai = AccountInfo::new(&mint_key, false, true, &mut ml, &mut md[..], &token_pid, false, 0);
+    let mut td = token_account_bytes(mint_key.to_bytes(), ta_owner, 0, 1);
+    let mut tl = 1u64;
+    let ta_ai = AccountInfo::new(&ta_key, false, true, &mut tl, &mut td[..], &token_pid, false, 0);
+    let mut pl = 1u64;
+    let mut pd = [0u8; 0];
+    let tp_ai = AccountInfo::new(&token_pid, false, false, &mut pl, &mut pd[..], &bpf, true, 0);
+
+    let wp: Account<Whirlpool> = Account::try_from(&wp_ai).unwrap();
+    let mint: Account<Mint> = Account::try_from(&mint_ai).unwrap();
+    let ta: Account<TokenAccount> = Account::try_from(&ta_ai).unwrap();
+    let tp: anchor_lang::prelude::Program<Token> = anchor_lang::prelude::Program::try_from(&tp_ai).unwrap();
+
+    let r = ::whirlpool::util::mint_position_token_and_remove_authority(&wp, &mint, &ta, &tp);
+    let ok = r.is_ok();
+    core::mem::forget(r);
+    let n = unsafe { cpi_log::N };
+    let log = unsafe { cpi_log::LOG };
+    kani::cover!(ok, "both CPIs issued and succeeded");
+    kani::cover!(!ok && n == 1, "mint_to failed");
+    assert!(ok == (!fail0 && !fail1));
+    assert!(n == if fail0 { 1 } else { 2 });
+    // 1st: mint exactly one token of the position mint into the position token account
+    assert!(log[0].program == token_pid.to_bytes());
+    assert!(log[0].d0 == TOKEN_IX_MINT_TO && log[0].len == 9 && log[0].amount == 1);
+    assert!(log[0].acc0 == mint_key.to_bytes() && log[0].acc1 == ta_key.to_bytes());
+    assert!(log[0].n_signer_sets == 1);
+    if n == 2 {
+        // 2nd: remove the mint authority for good
+        assert!(log[1].program == token_pid.to_bytes());
+        assert!(log[1].d0 == TOKEN_IX_SET_AUTHORITY && log[1].len == 3);
+        assert!(log[1].d1 == 0, "AuthorityType::MintTokens");
+        assert!(log[1].d2 == 0, "new authority = None");
+        assert!(log[1].acc0 == mint_key.to_bytes());
+        assert!(log[1].n_signer_sets == 1);
+    }
+    core::mem::forget(wp);
+    core::mem::forget(mint);
+    core::mem::forget(ta);
+}
+
+// ------------------------------------------------------------------------------------------------
+// Pinocchio handler prefixes: lock (= frozen position token account) enforcement.
+// Own copy of the raw-account scaffolding (same layout as pinocchio::account_info::Account).
+
+mod pino {
+    use super::*;
+    use pinocchio::account_info::AccountInfo as PAccountInfo;
+    use pinocchio::program_error::ProgramError as PProgramError;
+    use pinocchio::sysvars::clock::Clock;
+
+    #[repr(C)]
+    #[derive(Clone, Copy)]
+    pub struct Raw<const N: usize> {
+        pub borrow_state: u8,
+        pub is_signer: u8,
+        pub is_writable: u8,
+        pub executable: u8,
+        pub resize_delta: i32,
+        pub key: [u8; 32],
+        pub owner: [u8; 32],
+        pub lamports: u64,
+        pub data_len: u64,
+        pub data: [u8; N],
+    }
+    pub fn raw<const N: usize>() -> Raw<N> {
+        Raw {
+            borrow_state: 0xff, // not borrowed
+            is_signer: kani::any::<bool>() as u8,
+            is_writable: kani::any::<bool>() as u8,
+            executable: 0,
+            resize_delta: 0,
+            key: kani::any(),
+            owner: kani::any(),
+            lamports: 1,
+            data_len: N as u64,
+            data: kani::any(),
+        }
+    }
+    pub unsafe fn ai<const N: usize>(r: *mut Raw<N>) -> PAccountInfo {
+        let mut slot = core::mem::MaybeUninit::<PAccountInfo>::uninit();
+        (slot.as_mut_ptr() as *mut *mut Raw<N>).write(r);
+        slot.assume_init()
+    }
+
+    pub static mut REACHED: bool = false;
+    /// sysvar syscall: marks "every check before the core logic passed" and stops the handler
+    pub fn stub_clock_get() -> Result<Clock, PProgramError> {
+        unsafe {
+            REACHED = true;
+        }
+        Err(PProgramError::UnsupportedSysvar)
+    }
+
+    /// the 11 accounts of increase_liquidity / decrease_liquidity (v1). Accounts whose data is not read
+    /// before the Clock call carry no data (token owner accounts, vaults, tick arrays: only key/flags).
+    #[derive(Clone, Copy)]
+    pub struct V1 {
+        pub whirlpool: Raw<WP_LEN>,
+        pub token_program: Raw<0>,
+        pub authority: Raw<0>,
+        pub position: Raw<POS_LEN>,
+        pub pos_token: Raw<165>,
+        pub owner_a: Raw<0>,
+        pub owner_b: Raw<0>,
+        pub vault_a: Raw<0>,
+        pub vault_b: Raw<0>,
+        pub ta_lower: Raw<0>,
+        pub ta_upper: Raw<0>,
+    }
+    pub fn any_v1() -> V1 {
+        V1 {
+            whirlpool: raw(), token_program: raw(), authority: raw(), position: raw(), pos_token: raw(),
+            owner_a: raw(), owner_b: raw(), vault_a: raw(), vault_b: raw(), ta_lower: raw(), ta_upper: raw(),
+        }
+    }
+    pub fn run_v1(a: &mut V1, data: &[u8; 40], decrease: bool) -> bool {
+        let accounts = unsafe {
+            [
+                ai(&mut a.whirlpool), ai(&mut a.token_program), ai(&mut a.authority), ai(&mut a.position),
+                ai(&mut a.pos_token), ai(&mut a.owner_a), ai(&mut a.owner_b), ai(&mut a.vault_a),
+                ai(&mut a.vault_b), ai(&mut a.ta_lower), ai(&mut a.ta_upper),
+            ]
+        };
+        unsafe {
+            REACHED = false;
+        }
+        let r = if decrease {
+            ::whirlpool::pinocchio::instructions::decrease_liquidity::handler(&accounts, data)
+        } else {
+            ::whirlpool::pinocchio::instructions::increase_liquidity::handler(&accounts, data)
+        };
+        core::mem::forget(r);
+        unsafe { REACHED }
+    }
+}
+const TOKEN_ACCOUNT_STATE: usize = 108;
+const FROZEN: u8 = 2;
+
+/// Pinocchio decrease_liquidity prefix: if the position token account is frozen (locked position) the handler never gets past its checks (the Clock sysvar call that starts the core logic is not reached). All 11 accounts' keys/owners/flags and the whirlpool, position and token account bytes symbolic.
+// @verif prop=C18 tier=quick timeout=300
+#[kani::proof]
+#[kani::unwind(40)]
+#[kani::stub(alloc::fmt::format, stub_format)]
+#[kani::stub(<pinocchio::sysvars::clock::Clock as pinocchio::sysvars::Sysvar>::get, pino::stub_clock_get)]
+#[kani::stub(<::whirlpool::pinocchio::errors::UnifiedError as core::convert::From<::whirlpool::errors::ErrorCode>>::from, stub_unified_from_code)]
+#[kani::stub(<::whirlpool::pinocchio::errors::UnifiedError as core::convert::From<anchor_lang::error::ErrorCode>>::from, stub_unified_from_anchor_code)]
+fn c18_pino_decrease_refuses_locked() {
+    let mut a = pino::any_v1();
+    let data: [u8; 40] = kani::any();
+    let state = a.pos_token.data[TOKEN_ACCOUNT_STATE];
+    let reached = pino::run_v1(&mut a, &data, true);
+    kani::cover!(reached, "an unlocked position passes the checks");
+    if reached {
+        assert!(state != FROZEN, "locked position: liquidity cannot be removed");
+    }
+}
+
+/// Pinocchio increase_liquidity prefix: locking does not matter — on identical accounts the checks pass with a frozen position token account iff they pass with an unfrozen one (and they can pass). Same symbolic inputs as above.
+// @verif prop=C18 tier=quick timeout=300
+#[kani::proof]
+#[kani::unwind(40)]
+#[kani::stub(alloc::fmt::format, stub_format)]
+#[kani::stub(<pinocchio::sysvars::clock::Clock as pinocchio::sysvars::Sysvar>::get, pino::stub_clock_get)]
+#[kani::stub(<::whirlpool::pinocchio::errors::UnifiedError as core::convert::From<::whirlpool::errors::ErrorCode>>::from, stub_unified_from_code)]
+#[kani::stub(<::whirlpool::pinocchio::errors::UnifiedError as core::convert::From<anchor_lang::error::ErrorCode>>::from, stub_unified_from_anchor_code)]
+fn c18_pino_increase_allows_locked() {
+    let mut a = pino::any_v1();
+    let data: [u8; 40] = kani::any();
+    let mut b = a;
+    a.pos_token.data[TOKEN_ACCOUNT_STATE] = 1; // initialized
+    b.pos_token.data[TOKEN_ACCOUNT_STATE] = FROZEN;
+    let reached_unlocked = pino::run_v1(&mut a, &data, false);
+    let reached_locked = pino::run_v1(&mut b, &data, false);
+    kani::cover!(reached_locked, "a locked position can still add liquidity");
+    assert!(reached_locked == reached_unlocked);
+}
